@@ -68,7 +68,7 @@ const ALLOWED_AMBIENT: [(&str, &str, &str); 1] = [(
 /// nothing follows — i.e. the comments of whichever assignment comes next — so the generated text depends on the order of
 /// the assignments. Every parser in tail position of a top-level assignment is checked: its last element must not be a
 /// trivia-skipping wrapper around a nullable parser (`opt`, `many0`, `success`); the wrapper belongs inside the `opt`.
-fn trailing_trivia(m: &Model, ctx: &mut Ctx) {
+pub fn trailing_trivia(m: &Model, ctx: &mut Ctx, rule: &str) {
     use std::collections::BTreeSet;
     let lexer: Vec<&crate::model::FnInfo> = m.fns.iter().filter(|f| f.krate == "rasn-compiler" && f.module.starts_with("lexer") && !f.module.contains("tests")).collect();
     let by_name = |n: &str| lexer.iter().find(|f| f.name == n).cloned();
@@ -105,7 +105,7 @@ fn trailing_trivia(m: &Model, ctx: &mut Ctx) {
         let Some(f) = by_name(&n) else { continue };
         let Some(syn::Stmt::Expr(tail, None)) = f.block.stmts.last() else { continue };
         checked += 1;
-        ctx.oblige("C11.comments", &n, false);
+        ctx.oblige(rule, &n, false);
         // (violations, named parsers in tail position)
         fn visit(e: &syn::Expr, viol: &mut Vec<(String, String, usize)>, next: &mut Vec<String>, depth: usize) {
             if depth > 12 {
@@ -146,11 +146,11 @@ fn trailing_trivia(m: &Model, ctx: &mut Ctx) {
         visit(tail, &mut viol, &mut next, 0);
         work.extend(next);
         for (name, inner_name, line) in viol {
-            ctx.violate("C11.comments", &format!("trailing-trivia-consumed:{}", n), &f.file, line,
+            ctx.violate(rule, &format!("trailing-trivia-consumed:{}", n), &f.file, line,
                 &format!("`{}` ends in `{}({}(..))`: the white space and comments behind the construct are consumed even when nothing follows, so the comments that document the next assignment are lost — the output depends on which assignment comes next (write `opt({}(..))`)", n, name, inner_name, name));
         }
     }
-    ctx.floor("C11.comments/tail-parsers", checked, 40);
+    ctx.floor(&format!("{}/tail-parsers", rule), checked, 40);
 }
 
 pub fn run(m: &Model, ctx: &mut Ctx, facts: &Facts) {
@@ -385,5 +385,5 @@ Together these are necessary conditions for byte-identical output under repetiti
     } else {
         ctx.fail_closed("C11.order", "anchor not found: Validator::validate");
     }
-    trailing_trivia(m, ctx);
+    trailing_trivia(m, ctx, "C11.comments");
 }
